@@ -142,6 +142,22 @@ func (e *Engine) lookupIdent(cur *State, name string, env *SpecEnv) (Val, bool) 
 		}
 		return v, true
 	}
+	// rangelen: the length the (only) `for range` loop of the function was started with
+	if name == "rangelen" && env.fr != nil {
+		var found ssa.Value
+		n := 0
+		for _, li := range e.P.loopsOf(env.fr.fn) {
+			if li.rangeLen != nil {
+				found = li.rangeLen
+				n++
+			}
+		}
+		if n == 1 {
+			if v, ok := env.fr.regs[found]; ok {
+				return v, true
+			}
+		}
+	}
 	// captured variable of a closure under contract: the current content of the captured cell
 	if fv, ok := env.free[name]; ok && !dollar {
 		if pt, ok := fv.Ty.Underlying().(*types.Pointer); ok {
@@ -270,7 +286,7 @@ func (e *Engine) evalSpec(cur, old *State, x SExpr, env *SpecEnv) Val {
 				if g := e.P.ghostGlobal(id.Name); g != nil {
 					idx := e.evalSpec(cur, old, n.I, env)
 					arr := e.heapGet(cur, ghostKeyOf(g), "(Array Int (_ BitVec 64))")
-					return Val{K: KInt, Ty: types.Typ[types.Int], T: sel(arr, idx.T)}
+					return Val{K: KInt, Ty: types.Typ[types.Int], T: sel(arr, ghostIdx(idx))}
 				}
 			}
 		}
@@ -837,7 +853,7 @@ func (e *Engine) specCall(cur, old *State, n SCall, env *SpecEnv) Val {
 				if g := e.P.ghostGlobal(id.Name); g != nil {
 					idx := arg(1)
 					arr := e.heapGet(old, ghostKeyOf(g), "(Array Int (_ BitVec 64))")
-					return Val{K: KInt, Ty: types.Typ[types.Int], T: sel(arr, idx.T)}
+					return Val{K: KInt, Ty: types.Typ[types.Int], T: sel(arr, ghostIdx(idx))}
 				}
 			}
 			e.specErr("before(ghostGlobal, key)")
@@ -946,7 +962,7 @@ func (e *Engine) specCall(cur, old *State, n SCall, env *SpecEnv) Val {
 				e.stableMode = false
 				return r
 			}
-			if r, ok := e.pureSummary(cur, v.Fn, args, "true"); ok {
+			if r, ok := e.specSummary(cur, v.Fn, args); ok {
 				return r
 			}
 			e.specErr("function %s is not a pure summary", id.Name)
@@ -977,7 +993,7 @@ func (e *Engine) specCall(cur, old *State, n SCall, env *SpecEnv) Val {
 								}
 								args = append(args, a)
 							}
-							if r, ok := e.pureSummary(cur, fn, args, "true"); ok {
+							if r, ok := e.specSummary(cur, fn, args); ok {
 								return r
 							}
 						}
@@ -1000,7 +1016,7 @@ func (e *Engine) specCall(cur, old *State, n SCall, env *SpecEnv) Val {
 							c := &ssa.CallCommon{Method: it.Method(i)}
 							impls := e.P.implementers(recv.Ty)
 							// in contracts the closed world is always assumed (valid() states it)
-							if v, ok := e.dispatchPure(cur, nil, c, recv, args, impls, true); ok {
+							if v, ok := e.specDispatch(cur, c, recv, args, impls); ok {
 								return v
 							}
 						}
@@ -1017,7 +1033,7 @@ func (e *Engine) specCall(cur, old *State, n SCall, env *SpecEnv) Val {
 								e.stableMode = false
 								return r
 							}
-							if r, ok := e.pureSummary(cur, fn, append([]Val{recv}, args...), "true"); ok {
+							if r, ok := e.specSummary(cur, fn, append([]Val{recv}, args...)); ok {
 								return r
 							}
 						}
@@ -1476,3 +1492,28 @@ func reindexQuant(v, body string) string {
 }
 
 var boundVarRe = regexp.MustCompile(`\(\(\|q\.[^|]*\| `)
+
+// specSummary / specDispatch: a function called inside a specification is evaluated for its value
+// only; the panic sites inside it are not obligations of the function under verification (safe mode
+// is switched off while the summary is computed).
+func (e *Engine) specSummary(cur *State, fn *ssa.Function, args []Val) (Val, bool) {
+	save := e.wantSafe
+	e.wantSafe = false
+	defer func() { e.wantSafe = save }()
+	return e.pureSummary(cur, fn, args, "true")
+}
+
+func (e *Engine) specDispatch(cur *State, c *ssa.CallCommon, recv Val, args []Val, impls []types.Type) (Val, bool) {
+	save := e.wantSafe
+	e.wantSafe = false
+	defer func() { e.wantSafe = save }()
+	return e.dispatchPure(cur, nil, c, recv, args, impls, true)
+}
+
+// ghostIdx: ghost globals are indexed by Int (string ids, addresses); an integer key is converted.
+func ghostIdx(v Val) string {
+	if v.K == KInt {
+		return "(bv2nat " + v.T + ")"
+	}
+	return v.T
+}
